@@ -8,6 +8,7 @@
 from pymodbus.utilities import computeCRC, computeLRC, checkCRC, checkLRC
 
 from harness.runner import Report
+from harness.pyutil import errkind
 from harness import msggen, framelib
 from harness.c01 import nontrivial, devinfo_fits
 from harness.c02 import in_range
@@ -112,9 +113,52 @@ def gen_cases(rng, direction, n):
     return out
 
 
+def register_isolation(rep):
+    """`decoder.register(custom_class)` (also reachable as client.register) customises ONE decoder: a fresh receiver built
+    afterwards must still deliver the standard message classes"""
+    from pymodbus.factory import ClientDecoder, ServerDecoder
+    from pymodbus.pdu import ModbusResponse, ModbusRequest
+    from pymodbus.other_message import ReportSlaveIdResponse, ReportSlaveIdRequest
+
+    class VendorResponse(ModbusResponse):
+        function_code = 0x11
+
+        def encode(self):
+            return b''
+
+        def decode(self, data):
+            self.raw = data
+
+    class VendorRequest(ModbusRequest):
+        function_code = 0x11
+
+        def encode(self):
+            return b''
+
+        def decode(self, data):
+            self.raw = data
+
+    for name, cls, custom, std, pdu in (('client', ClientDecoder, VendorResponse, ReportSlaveIdResponse, bytes([0x11, 3, 65, 66, 0xFF])),
+                                        ('server', ServerDecoder, VendorRequest, ReportSlaveIdRequest, bytes([0x11]))):
+        case = {'kind': 'register', 'decoder': name}
+        rep.case(('register', name), nontrivial=True, tag='register-isolation')
+        first = cls()
+        first.register(custom)
+        fresh = cls()
+        try:
+            got = type(fresh.decode(pdu)).__name__
+        except Exception as e:  # noqa
+            got = 'raised ' + errkind(e)
+        own = type(first.decode(pdu)).__name__
+        if got != std.__name__ or own != custom.__name__:
+            rep.violation('registering a custom class on one decoder changes what another (fresh) decoder delivers', case,
+                          fresh_decoder_delivers=got, expected=std.__name__, customised_decoder_delivers=own)
+
+
 def run(ctx):
     rep = Report(RULE)
     rng = ctx.rng
+    register_isolation(rep)
     for c in ctx.corpus():
         if c.get('kind') == 'frame':
             check_batch(ctx, rep, c['dir'], [(c['framer'], c['msg'], c['uid'], c['tid'], c['pid'])])
@@ -153,7 +197,9 @@ def run(ctx):
 def replay(ctx, payload):
     rep = Report(RULE)
     c = payload['case']
-    if c['kind'] == 'frame':
+    if c['kind'] == 'register':
+        register_isolation(rep)
+    elif c['kind'] == 'frame':
         check_batch(ctx, rep, c['dir'], [(c['framer'], c['msg'], c['uid'], c['tid'], c['pid'])])
     else:
         checksum_cases(ctx, rep, [c['data']])
